@@ -175,6 +175,148 @@ def gen_tree(rng, d, pool, atoms=True, raw=True):
     return [k, a, b] if rng.random() < 0.5 else [k, b, a]
 
 
+def focus_pool(rng):
+    """constants chosen deliberately: the same one several times, its neighbours, and one far away"""
+    c = rng.choice(SMALL)
+    return [c, c, c, c + 1, c - 1, c + rng.choice([-7, 7])]
+
+
+# ------------------------------------------------------------------ escalation when the correspondence breaks
+ESC_CONSTS = [-1, 0, 1, 2, 3]
+ESC_LIMIT = 20000
+
+
+def atom_paths(p, path=()):
+    """positions of the comparison atoms (Equal NotEqual GreaterEqual LessEqual with a plain constant) of a raw predicate"""
+    if not isinstance(p, list) or not p:
+        return []
+    if p[0] in (1, 2, 3, 4):
+        return [path] if isinstance(p[1], int) else []
+    if p[0] in (5, 6, 7):
+        return [x for i in range(1, len(p)) for x in atom_paths(p[i], path + (i,))]
+    return []
+
+
+def put(p, path, node):
+    if not path:
+        return node
+    q = list(p)
+    q[path[0]] = put(p[path[0]], path[1:], node)
+    return q
+
+
+def get(p, path):
+    for i in path:
+        p = p[i]
+    return p
+
+
+def shape_of(p):
+    """the predicate with its comparison atoms blanked"""
+    for path in atom_paths(p):
+        p = put(p, path, [1, 0])
+    return canon(p)
+
+
+def instantiations(rng, operands, vary_kinds=True):
+    """all (or, above ESC_LIMIT, a sample of) re-instantiations of the comparison atoms of the operands:
+    every assignment of constants from ESC_CONSTS, and every kind among == != >= <= at each atom"""
+    import itertools
+    slots = [(n, path) for n, o in enumerate(operands) for path in atom_paths(o)]
+    k = len(slots)
+    kinds = [1, 2, 3, 4]
+    total = (len(ESC_CONSTS) ** k) * ((len(kinds) ** k) if vary_kinds else 1)
+    def build(cs, ks):
+        ops = [o for o in operands]
+        for (n, path), c, kd in zip(slots, cs, ks):
+            ops[n] = put(ops[n], path, [kd, c])
+        return ops
+    orig_kinds = [get(operands[n], path)[0] for n, path in slots]
+    if total <= ESC_LIMIT:
+        for cs in itertools.product(ESC_CONSTS, repeat=k):
+            for ks in (itertools.product(kinds, repeat=k) if vary_kinds else [orig_kinds]):
+                yield build(cs, ks)
+    else:
+        if len(ESC_CONSTS) ** k <= ESC_LIMIT // 2:
+            for cs in itertools.product(ESC_CONSTS, repeat=k):
+                yield build(cs, orig_kinds)
+        for _ in range(ESC_LIMIT // 2):
+            yield build([rng.choice(ESC_CONSTS) for _ in range(k)],
+                        [rng.choice(kinds) for _ in range(k)] if vary_kinds else orig_kinds)
+
+
+def dedup_or(p):
+    """a Set has no duplicates: drop repeated Or members produced by re-instantiation"""
+    if not isinstance(p, list) or not p:
+        return p
+    if p[0] == 5:
+        out = []
+        for q in p[1:]:
+            q = dedup_or(q)
+            if canon(q) not in [canon(x) for x in out]:
+                out.append(q)
+        return [5] + out
+    if p[0] in (6, 7):
+        return [p[0]] + [dedup_or(q) for q in p[1:]]
+    return p
+
+
+def disagreeing_applications(model, results):
+    """constructor applications on which the model, given the implementation's own operands, builds something else"""
+    apps, trees = [], []
+    for r in results:
+        for a in r.get("apps", []):
+            if a[0] in (0, 1):
+                t = [7 + a[0], [11, a[1]], [11, a[2]]]
+            elif a[0] == 2:
+                t = [9, [11, a[1]]]
+            else:
+                t = [a[0] + 2, a[3]]
+            apps.append(a); trees.append(t)
+    out, seen = [], set()
+    for a, t, mo in zip(apps, trees, model.run([[0, CUR, t] for t in trees]) if trees else []):
+        if canon(mo) != canon(a[4]):
+            key = json.dumps([a[0], shape_of(a[1]), shape_of(a[2])])
+            if key not in seen:
+                seen.add(key)
+                out.append(a)
+    return out
+
+
+def escalate(ctx, h, model, disagreeing):
+    """search for a failing input around a broken correspondence: (1) every tree of depth <= 2 over the comparison
+    atoms with constants {0, 1}; (2) every re-instantiation (constants, atom kinds) of each disagreeing application"""
+    found = []
+    leaves = [[k, c] for k in (1, 2, 3, 4) for c in (0, 1)]
+    ex = all_trees(2, leaves)
+    ctx.cov["escalation_exhaustive"] = "all %d trees of depth<=2 over == != >= <= with constants {0,1}" % len(ex)
+    for off in range(0, len(ex), 20000):
+        for r in run_batch(ctx, h, model, ex[off:off + 20000], record=False, tables=False):
+            ctx.count("escalation: exhaustive tree")
+            if r["judge"] or r["panic"]:
+                found.append(r)
+        if found:
+            return found
+    apps = disagreeing_applications(model, disagreeing)[:12]
+    ctx.cov["escalation_reinstantiated_applications"] = [{"law": LAWS[a[0]], "operands": [show(a[1]), show(a[2])]} for a in apps]
+    for a in apps:
+        if a[0] > 2:
+            continue
+        ops = [a[1]] if a[0] == 2 else [a[1], a[2]]
+        trees = []
+        for inst in instantiations(ctx.rng, ops):
+            inst = [dedup_or(o) for o in inst]
+            trees.append([9, [11, inst[0]]] if a[0] == 2 else [7 + a[0], [11, inst[0]], [11, inst[1]]])
+        for off in range(0, len(trees), 20000):
+            for r in run_batch(ctx, h, model, trees[off:off + 20000], record=False, tables=False):
+                ctx.count("escalation: re-instantiated application")
+                if r["judge"] or r["panic"]:
+                    found.append(r)
+            if found:
+                return found
+    return found
+
+
 def subtrees(t):
     out = [t]
     if t[0] in (7, 8, 9):
@@ -195,7 +337,7 @@ def all_trees(depth, leaves):
 
 
 # ------------------------------------------------------------------ one batch
-def run_batch(ctx, h, model, trees, record=True):
+def run_batch(ctx, h, model, trees, record=True, tables=True):
     """returns list of dicts(tree, impl, model, shape_ok, table_ok, judge) ; judge = None or failing application"""
     impl = h.run([[0, t] for t in trees])
     mod = model.run([[0, CUR, t] for t in trees])
@@ -216,8 +358,9 @@ def run_batch(ctx, h, model, trees, record=True):
         r["shape_ok"] = canon(final) == canon(mo)
         pts = points(tree_consts(t) + consts_of(final) + consts_of(mo))
         r["pts"] = pts
-        for k in range(NVALS):
-            tab_cases.append([3, final, pts, k]); tab_cases.append([3, mo, pts, k])
+        if tables:
+            for k in range(NVALS):
+                tab_cases.append([3, final, pts, k]); tab_cases.append([3, mo, pts, k])
         for a in apps:
             law_cases.append([4, a[0], a[1], a[2], a[3], a[4], pts]); law_ix.append((n, a))
     tabs = model.run(tab_cases) if tab_cases else []
@@ -225,6 +368,9 @@ def run_batch(ctx, h, model, trees, record=True):
     ti = 0
     for r in res:
         if "pts" not in r:
+            continue
+        if not tables:
+            r["table_ok"] = True
             continue
         ok = True
         for k in range(NVALS):
@@ -269,7 +415,7 @@ def report_failure(ctx, h, model, r):
 def run(ctx):
     ctx.cov["rule"] = ("constructor-call trees (eq ne ge le gt lt and or invert over constants from {-2..10} plus a few 32/53-bit "
                        "boundary values, opaque atoms, general comparisons `3 <= I`, raw enum values the constructors never build) "
-                       "of depth <= 4 from the seeded PRNG, with re-used sub-trees so that the absorption arms fire; thorough adds every tree of "
+                       "of depth <= 4 from the seeded PRNG, with re-used sub-trees so that the absorption arms fire and, in half of the trees, constants drawn around one focus value (equal / adjacent / far); when the correspondence or a theorem breaks the same run escalates to every tree of depth <= 2 over == != >= <= x {0,1} and to every re-instantiation of the disagreeing applications; thorough adds every tree of "
                        "depth <= 2 over 7 leaves; non-trivial = distinct tree with at least one and/or/invert application whose operands and result are not Value")
     ctx.cov["trusted_base"] = ["Coq 8.16.1 kernel", "extraction (ExtrOcamlBasic only) + extract/driver.ml",
                                "harness/pred/src/main.rs (calls Predicate::{eq,ne,ge,le,gt,lt,and,or,invert}, walks the public enum)",
@@ -287,7 +433,8 @@ def run(ctx):
                 trees.append(json.load(open(os.path.join(corpus, f)))["tree"])
     n = ctx.scale(4000, 100000)
     for i in range(n):
-        pool = SMALL if ctx.rng.random() < 0.9 else SMALL + BIG
+        x = ctx.rng.random()
+        pool = focus_pool(ctx.rng) if x < 0.45 else SMALL if x < 0.92 else SMALL + BIG
         style = ctx.rng.random()
         d = ctx.rng.choice([1, 2, 2, 3, 3, 4])
         trees.append(gen_tree(ctx.rng, d, pool, atoms=style < 0.5, raw=style < 0.75))
@@ -304,6 +451,7 @@ def run(ctx):
         trees += ex
     n_corr = n_judge = n_foreign = 0
     first_corr = None
+    disagreeing = []
     B = 20000
     for off in range(0, len(trees), B):
         for r in run_batch(ctx, h, model, trees[off:off + B]):
@@ -323,6 +471,8 @@ def run(ctx):
                     report_failure(ctx, h, model, r)
             elif not (r["shape_ok"] and r["table_ok"]):
                 n_corr += 1
+                if len(disagreeing) < 200:
+                    disagreeing.append(r)
                 first_corr = first_corr or {"tree": t, "readable": show_tree(t), "impl": show(r["final"]), "model": show(r["model"]),
                                             "shape_equal": r["shape_ok"], "truth_table_equal": r["table_ok"], "table_diff": r.get("table_diff")}
     ctx.cov["trees_compared"] = len(trees)
@@ -331,6 +481,11 @@ def run(ctx):
         if n_judge == 0:
             ctx.violation("broken-correspondence", "the implementation built predicates outside the modelled fragment (enum changed?)",
                           case=None, no_input=True)
+    if n_judge == 0 and (n_corr or not proof.ok):
+        # the tie is broken but no generated tree fails the law: look harder before saying so
+        for r in escalate(ctx, h, model, disagreeing)[:3]:
+            n_judge += 1
+            report_failure(ctx, h, model, r)
     if n_judge == 0 and (n_corr or not proof.ok):
         what = []
         if not proof.ok:
